@@ -91,6 +91,10 @@ def instances(prop: str, tier: str, rng: random.Random) -> list[dict]:
                                                    b"abcdefghijklmnopqrstuvwxyz12", b"////AAAABBBBCCCCDDDDEEEEFFFFGGGG", b"///AAAAABBBBCCCCDDDDEEEEFFFFGGGG",
                                                    b"////AAAABBBBCCCCDDDDEEEE")]
         payloads += [rb(rng, rng.choice([48, 57, 64, 100, 200]), TEXT) for _ in range(10 if not big else 60)]
+        # long runs of one byte before / after ordinary content (the acceptance rules speak about the whole text)
+        for run in (12, 24, 48, 96):
+            for fill in (0, 0x41, 0xFF):
+                payloads += [bytes([fill]) * run + rb(rng, 30), rb(rng, 30) + bytes([fill]) * run]
         for p in payloads:
             add("b64", p, base64.b64encode(p))
         for p in [rb(rng, n) for n in range(1, 30)] + [rb(rng, 40, TEXT) for _ in range(5 if not big else 40)]:
